@@ -505,7 +505,13 @@ func check(c Case) *Failure {
 				return nil
 			}
 		}
-		if !agrees(c.TC, got, want, looseFor(g)*1e-3/relTol(c.TC)*relTol(c.TC)+looseFor(g)) {
+		at := c.TC
+		for _, t := range c.TT {
+			if types[t].Base == BF32 {
+				at = 1 // a binary32 temporary limits the precision of the result
+			}
+		}
+		if !agrees(at, V{T: at, F: got.F, Z: got.Z}, want, looseFor(g)) {
 			return fail(g+":value", "result differs from the named function", fstr(want))
 		}
 		return nil
